@@ -547,3 +547,52 @@ func H_C01_tabletypes() {
 	}
 	verif.Reach("end")
 }
+
+// H_C01_literals: constants in every decimal spelling compare by their
+// decimal value under every comparison operator, IN and BETWEEN.
+func H_C01_literals() {
+	texts := []string{"010", "0100", "007", "1e1", "10.0", "10.", "0010.00", "1.0e+1", "100e-1"}
+	li := verif.Choose("literal", len(texts))
+	form := verif.Choose("form", 4)
+	n := verif.Choose("rows", maxRows(2, 3)+1)
+	vals := []float64{10, 100, 7, 10, 10, 10, 10, 10, 10}
+	v := vals[li]
+	doc, rows := numTable(n, "a")
+	var sql string
+	op := 0
+	switch form {
+	case 0:
+		op = verif.Choose("op", len(cmpOps))
+		sql = "SELECT * FROM t WHERE a " + cmpOps[op] + " " + texts[li]
+	case 1:
+		sql = "SELECT * FROM t WHERE a IN (" + texts[li] + ", 3)"
+	case 2:
+		sql = "SELECT * FROM t WHERE a NOT IN (3, " + texts[li] + ")"
+	case 3:
+		sql = "SELECT * FROM t WHERE a BETWEEN 3 AND " + texts[li]
+	}
+	got, ok := runQuery(doc, sql)
+	if !ok {
+		return
+	}
+	var want []Map
+	for _, r := range rows {
+		x := f64of(r["a"])
+		var keep bool
+		switch form {
+		case 0:
+			keep = refCmp(op, x, v)
+		case 1:
+			keep = x == v || x == 3
+		case 2:
+			keep = !(x == v || x == 3)
+		case 3:
+			keep = x >= 3 && x <= v
+		}
+		if keep {
+			want = append(want, r)
+		}
+	}
+	sameRows(got, want, "filter")
+	verif.Reach("end")
+}
